@@ -732,6 +732,72 @@ def small_scope(cx, maxlen, ops=('default', 'outlier')):
   cx.c.coverage_extra['small_scope'] = 'all label arrays of length <= %d over {nan,-1,0,1,2,1e6} through the default pipeline (outlier pipeline: one length less when > 3), real code, property predicates' % maxlen
 
 
+def designer_stage(c):
+  """Where the designers APPLY the transformations (gp_ucb_pe / gp_bandit `_trials_to_data`): with several
+  objective metrics each metric's labels are warped on their own, and the inverse the designer keeps for a
+  metric (used by sample() / predict()) must give back that metric's observed values."""
+  import numpy as np
+  from vizier import algorithms as vza
+  from vizier import pyvizier as vz
+  from vizier._src.algorithms.designers import gp_bandit, gp_ucb_pe
+  rng = c.rng
+
+  def problem(names):
+    p = vz.ProblemStatement()
+    p.search_space.root.add_float_param('x', 0.0, 1.0)
+    p.search_space.root.add_float_param('y', 0.0, 1.0)
+    for nm in names:
+      p.metric_information.append(vz.MetricInformation(nm, goal=rng.choice([vz.ObjectiveMetricGoal.MAXIMIZE, vz.ObjectiveMetricGoal.MINIMIZE])))
+    return p
+  n_cases = 4 if c.tier == 'quick' else 16
+  for ci in range(n_cases):
+    nm = [1, 2, 3, 2][ci % 4]
+    names = ['m%d' % i for i in range(nm)]
+    scales = [10.0 ** rng.randrange(-3, 4) for _ in names]
+    ntr = rng.randrange(4, 11)
+    trials = []
+    for i in range(ntr):
+      t = vz.Trial(id=i + 1, parameters={'x': rng.random(), 'y': rng.random()})
+      t.complete(vz.Measurement(metrics={n_: sc * rng.gauss(0, 1) for n_, sc in zip(names, scales)}))
+      trials.append(t)
+    case = {'metrics': names, 'scales': scales, 'values': [[t.final_measurement.metrics[n_].value for n_ in names] for t in trials]}
+    for dname in (['gp_ucb_pe'] if nm > 1 else ['gp_ucb_pe', 'gp_bandit']):
+      c.count(1, ('designer-warp', ci, dname) if nm > 1 else None, kind='designer:%s:%d-metrics' % (dname, nm))
+      c.traces += 1
+      try:
+        if dname == 'gp_ucb_pe':
+          d = gp_ucb_pe.VizierGPUCBPEBandit(problem(names))
+          d.update(vza.CompletedTrials(trials), vza.ActiveTrials())
+          completed = d._all_completed_trials                          # pylint: disable=protected-access
+          raw = np.asarray(d._converter.to_xy(completed).labels.unpad(), dtype=np.float64)      # pylint: disable=protected-access
+          warped = np.asarray(d._trials_to_data(completed).labels.unpad(), dtype=np.float64)    # pylint: disable=protected-access
+          warpers = list(d._output_warpers)                              # pylint: disable=protected-access
+        else:
+          d = gp_bandit.VizierGPBandit(problem(names))
+          raw = np.asarray(d._converter.to_xy(trials).labels.unpad(), dtype=np.float64)         # pylint: disable=protected-access
+          warped = np.asarray(d._warp_labels(raw), dtype=np.float64)       # pylint: disable=protected-access
+          warpers = [d._output_warper]                                     # pylint: disable=protected-access
+      except Exception as e:  # pylint: disable=broad-except
+        c.prop_fail('designer-warp-raised:' + dname, '%s could not warp the labels of %d completed trials with %d metrics: %s: %s' % (dname, ntr, nm, type(e).__name__, e), case)
+        continue
+      if warped.shape != raw.shape or len(warpers) != nm:
+        c.prop_fail('designer-warp-shape:' + dname, '%s: warped labels have shape %s for observed shape %s, %d inverse(s) kept for %d metrics' % (
+            dname, warped.shape, raw.shape, len(warpers), nm), case)
+        continue
+      for m in range(nm):
+        col, w = raw[:, m], warped[:, m]
+        if not np.all(np.isfinite(w)):
+          c.prop_fail('designer-warp-not-finite:' + dname, '%s: warped labels of metric %d are not finite: %s' % (dname, m, w.tolist()), case)
+        if dense_ranks(col.tolist()) != dense_ranks(w.tolist()):
+          c.prop_fail('designer-warp-ranking:' + dname, '%s: the ranking of the observed values of metric %d changed: observed %s warped %s' % (dname, m, col.tolist(), w.tolist()), case)
+        back = np.asarray(warpers[m].unwarp(w[:, np.newaxis]), dtype=np.float64).reshape(-1)
+        tol = 1e-4 * max(1.0, float(np.max(np.abs(col))))
+        if not np.allclose(back, col, rtol=1e-4, atol=tol):
+          c.prop_fail('designer-unwarp-wrong-metric:' + dname,
+                      '%s with %d metrics: the inverse kept for metric %d does not return the observed values of that metric: observed %s, unwarp(warp) %s' % (
+                          dname, nm, m, [float('%.6g' % v) for v in col], [float('%.6g' % v) for v in back]), dict(case, metric=m))
+
+
 def run(c):
   c.proof_stage()
   cx = Ctx(c)
@@ -760,6 +826,7 @@ def run(c):
   gauss_rank_stream(cx, 40 if c.tier == 'quick' else 400)
   linear_stream(cx, 30 if c.tier == 'quick' else 300)
   small_scope(cx, 3 if c.tier == 'quick' else 5)
+  designer_stage(c)
 
   def search():
     small_scope(cx, 4 if c.tier == 'quick' else 5)
